@@ -7,6 +7,7 @@ import Mathlib.Data.Fintype.Pi
 Joint satisfiability of the hypotheses of every C01 theorem on NON-TRIVIAL oracles, and the one finding:
 `C01_membership` (= `C09.C09_stm_sound`) has a conclusion that follows from its hypothesis `hlen` ALONE.
 -/
+set_option autoImplicit false
 namespace Vacuity.C01
 open StmVerify
 
